@@ -26,8 +26,9 @@ impl C10 {
         let _ = boot.set_insn_limit(Some(20_000));
         let _ = boot.set_stack_limit(Some(5_000));
         let _ = std::fs::create_dir_all("/verif/target/scratch");
-        let _ = std::fs::write("/verif/target/scratch/c10-bad-include.xeh", "61 62 + drop\n: from-bad-include 1 ;\nnosuch-in-file 63\n: after-in-file 2 ;\n");
-        let _ = std::fs::write("/verif/target/scratch/c10-bad-include2.xeh", "71 drop 0xZZ 72\n");
+        write_scratch("/verif/target/scratch/c10-bad-include.xeh", "61 62 + drop\n: from-bad-include 1 ;\nnosuch-in-file 63\n: after-in-file 2 ;\n".as_bytes());
+        write_scratch("/verif/target/scratch/c10-bad-include2.xeh", "71 drop 0xZZ 72\n".as_bytes());
+        write_scratch("/verif/target/scratch/c10-good.xeh", ": from-good 71 ;\n5 var good-var\n".as_bytes());
         C10 { seed: a.seed, boot }
     }
 }
@@ -129,6 +130,9 @@ const FAILERS: &[(&str, &str)] = &[
     ("#( \"[ 1 2\" \"then\" ~)", "injected-unbalanced"),
     ("include \"/verif/target/scratch/c10-bad-include.xeh\"", "include-with-unknown-word"),
     ("require \"/verif/target/scratch/c10-bad-include2.xeh\"", "require-with-bad-literal"),
+    // a good file is required, then the source is rejected: the file does not count as loaded
+    ("require \"/verif/target/scratch/c10-good.xeh\" from-good no-such-word", "require-good-file-then-unknown-word"),
+    ("include \"/verif/target/scratch/c10-good.xeh\" 12x", "include-good-file-then-bad-literal"),
 ];
 
 const TRAILERS: &[&str] = &[
@@ -163,7 +167,8 @@ fn history_source(rng: &mut Rng, k: usize) -> String {
 }
 
 fn probe_source(rng: &mut Rng, k: usize) -> (String, &'static str) {
-    match rng.below(21) {
+    match rng.below(23) {
+        21 => ("from-good".into(), "call-word-of-the-good-file"),
         0 => (format!("{}", rng.range(0, 99)), "push"),
         1 => ("depth".into(), "depth"),
         2 => (format!("{} var pv{} pv{}", rng.range(0, 9), k, k), "var"),
@@ -184,6 +189,7 @@ fn probe_source(rng: &mut Rng, k: usize) -> (String, &'static str) {
         17 => ("hv0".into(), "read-history-var"),
         18 => ("3 hw0".into(), "call-history-word"),
         19 => (rng.pick_str(&["I", "J", "1 0 do J loop", "big? offset hv0 3 collect"]).to_string(), "loop-index-or-variables"),
+        20 => ("require \"/verif/target/scratch/c10-good.xeh\" from-good good-var".into(), "require-the-good-file"),
         _ => ("drop".into(), "drop"),
     }
 }
